@@ -79,10 +79,33 @@ def subst_terms(case, sigma, ctx_target):
     return tpl_t, tgt_t, ctx_tpl
 
 
+class MatchTimeout(BaseException):
+    pass
+
+
+MATCH_BUDGET_S = 10
+
+
+def _match_alarm(signum, frame):
+    raise MatchTimeout()
+
+
 def check_case(ex, case):
+    import signal
     ex.stats.obligations += 1
+    old = signal.signal(signal.SIGALRM, _match_alarm)
+    signal.setitimer(signal.ITIMER_REAL, MATCH_BUDGET_S)
     try:
-        sigma = run_match(case)
+        try:
+            sigma = run_match(case)
+        finally:
+            signal.setitimer(signal.ITIMER_REAL, 0)
+            signal.signal(signal.SIGALRM, old)
+    except MatchTimeout:
+        # pymbolic's commutative-associative unifier is exponential in the number of equal factors; a pair on which the
+        # real match() does not answer within the budget is outside the bound (counted undecided, never discharged)
+        ex.stats.undecided += 1
+        return None, "timeout"
     except ValueError:
         ex.stats.discharged += 1
         return None, "nomatch"
@@ -127,7 +150,7 @@ def work(item):
     tr = common.FunctionTrace()
     tr.start()
     cands, samples = [], []
-    counts = {"match": 0, "nomatch": 0, "undecided": 0, "bad": 0, "exc": 0}
+    counts = {"match": 0, "nomatch": 0, "undecided": 0, "bad": 0, "exc": 0, "timeout": 0}
     for case in item["cases"]:
         c, tag = check_case(ex, case)
         counts[tag] += 1
@@ -144,7 +167,7 @@ def work(item):
             "evaluations": len(item["cases"]), "distinct_nontrivial": counts["match"],
             "samples": samples, "functions": sorted(tr.seen),
             "extra": {"outcome_match": counts["match"], "outcome_documented_error": counts["nomatch"],
-                      "outcome_undecided": counts["undecided"]}}
+                      "outcome_undecided": counts["undecided"], "outcome_match_exceeded_wall_budget": counts["timeout"]}}
 
 
 # ---------------------------------------------------------------------------
@@ -273,7 +296,35 @@ TPL_VARS = ["x", "y", "z", "a"]
 TGT_VARS = ["p", "q", "a", "b"]
 
 
+MAX_ARITY = 9
+
+
+def _max_arity(d):
+    """Largest number of operands of a sum/product after flattening (the unifier's cost is exponential in it)."""
+    import pymbolic.primitives as p
+    from pymbolic.mapper.flattener import flatten
+    best = 0
+    stack = [flatten(exprdsl.build(d))]
+    while stack:
+        x = stack.pop()
+        if isinstance(x, (p.Sum, p.Product)):
+            best = max(best, len(x.children))
+            stack.extend(x.children)
+        elif isinstance(x, (p.Call, p.CallWithKwargs)):
+            stack.extend(x.parameters)
+            if isinstance(x, p.CallWithKwargs):
+                stack.extend(x.kw_parameters.values())
+    return best
+
+
 def random_case(rng):
+    while True:
+        case = _random_case(rng)
+        if _max_arity(case["target"]) <= MAX_ARITY and _max_arity(case["template"]) <= MAX_ARITY:
+            return case
+
+
+def _random_case(rng):
     gt = exprdsl.Gen(rng, vars_num=TPL_VARS, consts=(0, 1, 2), funcs=("f", "g", "<func>h"),
                      ops=["+", "*", "call", "callkw"], kwnames=("k", "m"))
     gs = exprdsl.Gen(rng, vars_num=TGT_VARS, consts=(0, 1, 2, 3), funcs=("f", "gg"),
@@ -375,12 +426,13 @@ def main(tier, seed):
     cases = list(exhaustive_cases())
     n_exh = len(cases)
     rng = random.Random(seed)
-    nrand = 6000 if tier == "quick" else 60000
+    nrand = 6000 if tier == "quick" else 400000
     for _ in range(nrand):
         cases.append(random_case(rng))
     run.bounds = {"exhaustive_pairs": n_exh, "random_pairs": nrand, "template_depth": "<= 3",
                   "operators": "sums, products, calls with positional and keyword arguments",
-                  "solver_timeout_ms": 5000}
+                  "solver_timeout_ms": 5000, "match_wall_budget_s": MATCH_BUDGET_S,
+                  "max_operands_of_a_flattened_sum_or_product": MAX_ARITY}
     parts = chunks(cases, common.NPROC * 4)
     for part in pmap("vf.checks.c17", "work", [{"cases": p} for p in parts]):
         run.absorb(part)
@@ -391,6 +443,9 @@ def main(tier, seed):
         "family = sums, products, calls (positional + keyword) as named by the property; quotients/powers are excluded on purpose "
         "(match runs pymbolic.flatten, which rewrites 0/x to 0 -- a dependency artefact outside the stated family)",
         "function symbols are pure uninterpreted functions; a binding f -> g maps f to the UF of g",
+        "the property is about reported matches (partial correctness): a pair on which the real match() does not answer within the wall budget "
+        "(pymbolic's commutative-associative unifier is exponential in the number of operands) is counted undecided; random pairs are limited to "
+        "%d operands per flattened sum/product" % MAX_ARITY,
         "+ and * over mathematical integers; non-linear obligations on which z3 answers unknown are counted as undecided, never as discharged",
     ]
     return run.finish(
